@@ -33,6 +33,7 @@ const prelude = `(declare-datatypes ((Str 0)) (((mk-str (s-base (Array Int Int))
 (declare-fun strsuffix (Str Str) Bool)
 (declare-fun strprefix (Str Str) Bool)
 (declare-fun strindex (Str Str) Int)
+(declare-fun strlastindex (Str Str) Int)
 (declare-fun splitlast (Str Str) Str)
 `
 
